@@ -60,7 +60,9 @@ impl<'a> Message<'a> {
             } else {
                 0
             };
-            let (rest, last_param) = if let Some((rest, lp)) = trimmed[start_pos..].split_once(':')
+            // the last parameter starts after " :" - colon inside other parameter doesn't start it
+            let (rest, last_param) = if let Some((rest, lp)) =
+                trimmed[start_pos..].split_once(" :")
             {
                 // get rest. add first character length to rest length.
                 (&trimmed[0..rest.len() + start_pos], Some(lp))
